@@ -168,3 +168,25 @@ def c19(ctx):
         not_decided=['the floating-point claims (result in 0..maxv-1, equals exact floor below 2^53): rounding behaviour of the double '
                      'expression is not analysed'],
         extra=extra)
+
+
+from . import rules_param as PA
+
+
+@prop('C09')
+def c09(ctx):
+    extra = {}
+    for prog in programs(ctx):
+        extra['ok_path_guards_' + prog.config] = PA.r_param(ctx, prog)
+        I.r_apiguard(ctx, prog)
+        I.r_retdef(ctx, prog)
+    return dict(
+        explanation='R-PARAM collects, per codec, the comparison guards that hold on every path on which of_set_fec_parameters returns OK '
+        '(dispatcher restricted to the codec id, codec routine with store-forwarded fields, matrix constructor through its non-NULL '
+        'returns) and derives the property\'s limits from them by interval reasoning (m by region enumeration over the constants it is '
+        'compared with). R-APIGUARD: session/role/ESI/NULL tests dominate every use and dispatch in the eight scoped API functions and '
+        'the four encoders; failing edges return an error status and leave the session untouched. R-RETDEF: no undefined status.',
+        decides=['outside the advertised limits => rejected (all parameters, RS-2^8, RS-2^m, LDPC-Staircase)',
+                 'argument guards of the dispatch layer and encoders'],
+        not_decided=['inside the limits => OK and then encodes/decodes correctly (behavioural)'],
+        extra=extra)
